@@ -510,4 +510,18 @@ def writeWeb (r : Except ResolveErr Authz) : Option Dec :=
 
 example : (runOps [] Store.empty Caches.empty aliasOps).map writeWeb = [some .allow, some .deny] := by decide
 
+/-- the hypotheses of `sequence_pure` are met by this history (universe = the two written versions
+    plus all synthetic policies) -/
+example : runOps [] Store.empty Caches.empty aliasOps = specOps [] Store.empty aliasOps := by
+  refine sequence_pure (fun d => d ∈ [docA, docB] ∨ (∃ x, d = svcDoc x) ∨ (∃ x, d = nodeDoc x))
+    (versioned_history [docA, docB] (by decide) ?_) (fun x => .inr (.inl ⟨x, rfl⟩)) (fun x => .inr (.inr ⟨x, rfl⟩))
+    [] aliasOps ?_ Store.empty (fun d hd => by cases hd) Caches.empty (CacheInv.empty _)
+  · intro d hd n
+    simp only [List.mem_cons, List.not_mem_nil, or_false] at hd
+    rcases hd with rfl | rfl <;> simp [docA, docB]
+  · intro d hd
+    simp only [aliasOps, List.mem_cons, Op.putDoc.injEq, reduceCtorEq, List.not_mem_nil, or_false] at hd
+    left
+    rcases hd with rfl | rfl <;> simp
+
 end CV.Acl
